@@ -1086,6 +1086,11 @@ func (fr *frame) execConvert(x *ssa.Convert, v Val, st *State, alive string, saf
 	case isStringType(from) && isStringType(to):
 		return v
 	case isStringType(to):
+		if vc.eng.types.sortOf(from) == sortAddr {
+			// sdk.AccAddress is an abstract value: its raw bytes as a string are a function of the address
+			vc.declareRaw("addr2str", "(declare-fun addr2str (Addr) String)")
+			return Val{t: "(addr2str " + v.t + ")"}
+		}
 		if _, ok := from.Underlying().(*types.Slice); ok {
 			return Val{t: "(bytes2str " + vc.bytesVal(st, v.t) + ")"}
 		}
